@@ -60,3 +60,16 @@ func init() {
 	checks["C02"] = checkC02
 	replayers["C02"] = replaySemCase(&SemOpts{})
 }
+
+func checkC14(c *Ctx) {
+	o := &SemOpts{}
+	c.runSemFamily("FamOrder", "FamOrder_quick.cfg", o, 30*time.Minute)
+	c.cov("exhaustive", true)
+	c.cov("rule", "FamOrder: side-effecting probes P(tag, v) in every operand position of every operator, call, array/object literal, index, property and store form (depth 1 and 2), assignments used as expressions, and a falsy and a truthy representative of every value kind (literal and computed) under if / ! / or / and / while / for; non-trivial = at least one probe tag printed")
+	semAssumptions(c)
+}
+
+func init() {
+	checks["C14"] = checkC14
+	replayers["C14"] = replaySemCase(&SemOpts{})
+}
